@@ -66,7 +66,7 @@ PROPS = {
     ),
     'C15': dict(
         title='How a program is driven does not change what it does',
-        verus_units=['state'],
+        verus_units=['state', 'compile'],
         kani_groups=[],
         design_ref='DESIGN.md section 5 / C15',
         technique='Verus: each primitive and fetch_and_run has ONE machine-state postcondition that does not mention whether recording is on',
